@@ -20,9 +20,10 @@ VARIABLES l,        \* position in Rec
           memo12,   \* store value -> digests of the first validation of an equal store (C11, C12)
           memo13,   \* <<id, cid, facts>> -> digest of the first result with equal content and facts (C13)
           poison,   \* the current scenario saw a call that did not return normally
-          stats     \* counters reported at the end of the trace (vacuity control)
+          stats,    \* counters reported at the end of the trace (vacuity control)
+          docs      \* <<instance, id>> -> the pieces of the content held there, when the Add event carried them
 
-tvars == <<store, l, memo12, memo13, poison, stats>>
+tvars == <<store, l, memo12, memo13, poison, stats, docs>>
 
 Fail(prop, e, why) == PrintT("FAIL " \o ToJson([prop |-> prop, l |-> l, sid |-> e.sid, n |-> e.n, why |-> why]))
 
@@ -57,6 +58,8 @@ JudgeObs(e, o, keys) ==
   /\ J("C03", e, "no tree and no Error", NoTreeHasError(o))
   /\ J("C11", e, "diagnostics not in ascending start order", Sorted(o.diags))
   /\ J("C04", e, "validation diagnostic on no node range", OnNode(o))
+  /\ J("C04", e, "related information on no node range",
+       \A k \in DOMAIN o.diags : o.diags[k].stage = "valid" => \A j \in DOMAIN o.diags[k].rel : o.diags[k].rel[j].an # <<>>)
   /\ IF o.has_tree THEN
         /\ J("C05", e, "resolved kind / unknown-type slice", C05ok(o, keys))
         /\ J("C06", e, "import / forward-declaration slice", C06ok(o, keys))
@@ -73,7 +76,7 @@ JudgeObs(e, o, keys) ==
 \* is a function of the (id, content) pairs (C11 / C12) resp. of (id, content, import facts) (C13) whatever the
 \* scenario - so the control cases "the facts changed, the result must follow" are compared with the results
 \* other scenarios obtained under those facts
-TReset(e) == /\ store' = Empty /\ UNCHANGED <<memo12, memo13>> /\ poison' = FALSE
+TReset(e) == /\ store' = Empty /\ UNCHANGED <<memo12, memo13>> /\ poison' = FALSE /\ docs' = Empty
 
 Abnormal(e) == e.out # "ok"
 
@@ -81,9 +84,10 @@ Abnormal(e) == e.out # "ok"
 TAbnormal(e) ==
   /\ Fail("C01", e, "call did not return normally: " \o e.out)
   /\ poison' = TRUE
-  /\ UNCHANGED <<store, memo12, memo13>>
+  /\ UNCHANGED <<store, memo12, memo13, docs>>
 
-TNew(e) == New(e.i) /\ UNCHANGED <<memo12, memo13, poison>>
+TNew(e) == /\ New(e.i) /\ UNCHANGED <<memo12, memo13, poison>>
+           /\ docs' = [k \in {x \in DOMAIN docs : x[1] # e.i} |-> docs[k]]
 
 -----------------------------------------------------------------------------
 (* Parse-stage judgement of an Add event that carries its document as pieces (C02, C03, C04, C18, C20) *)
@@ -217,6 +221,7 @@ TAdd(e) ==
   \* (compared with TRUE so that TLC evaluates the judgement as an expression, where LET definitions are cached)
   /\ (IF Fld(e, "pieces") /\ Fld(e, "pobs") THEN JudgeParsed(e) ELSE TRUE) = TRUE
   /\ IF Has(e.i) THEN AddContent(e.i, IdOf(e), e.cid) ELSE store' = Put(store, e.i, Put(Empty, IdOf(e), e.cid))
+  /\ docs' = IF Fld(e, "pieces") THEN Put(docs, <<e.i, IdOf(e)>>, e.pieces) ELSE Del(docs, <<e.i, IdOf(e)>>)
   /\ UNCHANGED <<memo12, memo13, poison>>
 
 TAddFile(e) ==
@@ -229,13 +234,35 @@ TAddFile(e) ==
        [] OTHER ->
             /\ J("C12", e, "add_file of a non-UTF-8 file reported success", e.ret = "err")
             /\ IF Has(e.i) THEN AddFileBadUtf8(e.i, e.path) ELSE store' = Put(store, e.i, Empty)
+  /\ docs' = IF e.mode = "ok" THEN Del(docs, <<e.i, e.path>>) ELSE docs
   /\ UNCHANGED <<memo12, memo13, poison>>
 
 TRemove(e) ==
   /\ IF Has(e.i) THEN Remove(e.i, IdOf(e)) ELSE store' = Put(store, e.i, Empty)
+  /\ docs' = Del(docs, <<e.i, IdOf(e)>>)
   /\ UNCHANGED <<memo12, memo13, poison>>
 
 VStore(e) == IF Has(e.i) THEN store[e.i] ELSE Empty
+
+\* the validated result of a file whose document is known as pieces: validation adds kinds, oneway flags and
+\* diagnostics - the tree still mirrors the source, every range (also of validation diagnostics and of their
+\* related infos) is still exact / well-formed, the documentation is still the source's
+JudgeValidatedDoc(e, o, d) ==
+  LET tk == Tokens(d)
+      pr == ParseToks(tk)
+      tab == Tab(d)
+      ps == PosSet(d, tab)
+      same == pr.ok /\ o.has_tree /\ Len(o.nodes) = Len(pr.ns)
+  IN /\ J("C02", e, "validated tree does not mirror the source",
+          pr.ok => (o.has_tree /\ TreeMatches(pr.ns, o.nodes, "validated")))
+     /\ J("C10", e, "oneway flag of a method vs. the source and the interface",
+          same => \A i \in DOMAIN pr.ns : pr.ns[i].c = "method" =>
+                     o.nodes[i].ow = (pr.ns[i].ow \/ pr.ns[ItemIx(pr.ns)].ow))
+     /\ J("C04", e, "range not well-formed after validation (offset / char boundary / line-column)",
+          AllRangesWF(o.nodes, o.diags, ps))
+     /\ J("C04", e, "name / full range of a construct after validation",
+          same => \A i \in DOMAIN pr.ns : NodeRangesOK(pr.ns[i], o.nodes[i], tk, tab))
+     /\ J("C18", e, "documentation of a construct after validation", same => DocsOK(pr.ns, o.nodes, d, tk))
 
 JudgeValidate(e) ==
   LET s == VStore(e)
@@ -254,6 +281,8 @@ JudgeValidate(e) ==
           (s \in DOMAIN memo12 /\ ~FreeChoice(e)) => memo12[s].sdig = e.sdig)
      /\ IF full THEN
           /\ \A k \in DOMAIN e.obs : JudgeObs(e, e.obs[k], keys)
+          /\ \A k \in DOMAIN e.obs : <<e.i, e.obs[k].id>> \in DOMAIN docs =>
+                                          JudgeValidatedDoc(e, e.obs[k], docs[<<e.i, e.obs[k].id>>])
           /\ \A k \in M13 : J("C13", e, "result differs from an earlier one with equal content and import facts",
                               K13(k) \in DOMAIN memo13 => memo13[K13(k)] = e.sdig[e.obs[k].id])
         ELSE TRUE
@@ -274,7 +303,7 @@ TValidate(e) ==
   /\ JudgeValidate(e) = TRUE
   /\ memo12' = IF VStore(e) \in DOMAIN memo12 THEN memo12 ELSE Put(memo12, VStore(e), [dig |-> e.dig, sdig |-> e.sdig])
   /\ memo13' = NextMemo13(e)
-  /\ UNCHANGED poison
+  /\ UNCHANGED <<poison, docs>>
 
 \* kk (sequence of <<id, key, kind>>) as key -> set of kinds
 KeysOfKK(kk) == [q \in {kk[j][2] : j \in DOMAIN kk} |-> {kk[j][3] : j \in {x \in DOMAIN kk : kk[x][2] = q}}]
@@ -309,7 +338,7 @@ JudgeQuery(e) ==
 
 TQuery(e) == /\ (IF Has(e.i) THEN ReadOnly(e.i) ELSE store' = Put(store, e.i, Empty))
              /\ JudgeQuery(e) = TRUE
-             /\ UNCHANGED <<memo12, memo13, poison>>
+             /\ UNCHANGED <<memo12, memo13, poison, docs>>
 
 Queries == {"walk", "filter", "find", "finds", "filters", "lookups", "walktypes", "walkmethods", "walkargs", "key", "roundtrip"}
 
@@ -329,7 +358,7 @@ TNext ==
   /\ (l = Len(Rec) => PrintT("STATS " \o ToJson(stats')))
   /\ LET e == Rec[l] IN
        IF e.ev = "Reset" THEN TReset(e)
-       ELSE IF poison THEN UNCHANGED <<store, memo12, memo13, poison>>
+       ELSE IF poison THEN UNCHANGED <<store, memo12, memo13, poison, docs>>
        ELSE IF Abnormal(e) /\ e.out \in {"panic", "timeout", "abort"} THEN TAbnormal(e)
        ELSE CASE e.ev = "new" -> TNew(e)
               [] e.ev = "add" -> TAdd(e)
@@ -339,6 +368,7 @@ TNext ==
               [] e.ev \in Queries -> TQuery(e)
 
 TInit == store = Empty /\ l = 1 /\ memo12 = Empty /\ memo13 = Empty /\ poison = FALSE /\ stats = [h12 |-> 0, h13 |-> 0, obs |-> 0]
+         /\ docs = Empty
 
 TraceSpec == TInit /\ [][TNext]_tvars
 
